@@ -2451,6 +2451,7 @@ LOCAL_ROLES = {
     "out_netcdf:Output.create_netcdf_": [],
     "configure:configure_": [],
     "sample:bilin_inv": [
+        (("imax", "jmax"), lambda v: _u(v) == "F.shape"),
         # the iterates and their cell / fraction
         ("x", lambda v: "0.5 * imax" in _u(v) or "imax / 2" in _u(v) or "imax * 0.5" in _u(v)),
         ("y", lambda v: "0.5 * jmax" in _u(v) or "jmax / 2" in _u(v) or "jmax * 0.5" in _u(v)),
